@@ -493,6 +493,11 @@ func (m *ModuleInstance) resolveImports(ctx context.Context, module *Module) (er
 					err = errorMaxSizeMismatch(i, expected.Max, importedMemory.Max)
 					return
 				}
+
+				if expected.IsShared != importedMemory.Shared {
+					err = errorInvalidImport(i, fmt.Errorf("shared mismatch: %t != %t", expected.IsShared, importedMemory.Shared))
+					return
+				}
 				m.MemoryInstance = importedMemory
 				m.Engine.ResolveImportedMemory(importedModule.Engine)
 			case ExternTypeGlobal:
